@@ -390,6 +390,27 @@ def cli_chains(ck, tier):
                     jobs.append(["-s", salt, "-i", src, "-o", co] + ropts + flag[f])
                     src = co
                 plan.append((sub, mo, src))
+        # directory input with an undecodable file that is met BEFORE the good files (top level before sub-directory):
+        # the files after the failure still get every enabled stage
+        dplan = []
+        if ri == 0:
+            din = os.path.join(base, "din")
+            os.makedirs(os.path.join(din, "z"), exist_ok=True)
+            with open(os.path.join(din, "bad.bin"), "wb") as fh:
+                fh.write(b"hostname x\n\xff\xfe\x00\xff\n")
+            for gi in (1, 2):
+                with open(os.path.join(din, "z", "good%d.cfg" % gi), "w") as fh:
+                    fh.write(text.replace("65001", "6500%d" % gi if gi == 2 else "65001"))
+            for sub in (("pwd", "as"), ("ip", "as"), ("word", "as"), ("pwd", "ip", "word", "as")):
+                tag = "+".join(sub)
+                mo = os.path.join(base, "dm_%s" % tag)
+                jobs.append(["-s", salt, "-i", din, "-o", mo] + ropts + [x for f in sub for x in flag[f]])
+                src = din
+                for f in sub:
+                    co = os.path.join(base, "dc_%s_%s" % (tag, f))
+                    jobs.append(["-s", salt, "-i", src, "-o", co] + ropts + flag[f])
+                    src = co
+                dplan.append((sub, mo, src))
         jf = os.path.join(base, "jobs%d.json" % ri)
         json.dump(jobs, open(jf, "w"))
         p = subprocess.run([_sys.executable, "-c", _CLI_DRIVER, jf], env=dict(os.environ, PYTHONPATH=common.REPO, PYTHONHASHSEED="0"),
@@ -407,6 +428,20 @@ def cli_chains(ck, tier):
             traces.append(ev)
             meta.append({"case": {"features": list(sub), "eol": "lf", "kinds": ["cli"], "reserved_option": bool(ropts)}, "info": info, "salt": salt})
             ck.count(("c15cli", ri, sub))
+        for sub, mo, co in dplan:
+            ev = [{"ev": "cfg", "collapse": True, "clauses": ["Samecli"]}]
+            info = [None]
+            for gi in (1, 2):
+                pm, pc = os.path.join(mo, "z", "good%d.cfg" % gi), os.path.join(co, "z", "good%d.cfg" % gi)
+                if not (os.path.isfile(pm) and os.path.isfile(pc)):
+                    ev.append({"ev": "exc", "what": "directory run with a failing file: no output for good%d.cfg (%s)" % (gi, "+".join(sub))})
+                    info.append(("exception", "cli directory %s" % "+".join(sub)))
+                else:
+                    ev.append({"ev": "same", "what": "cli", "a": open(pm).read(), "b": open(pc).read()})
+                    info.append(("cli", "directory with a failing file first, options %s, file good%d.cfg" % ("+".join(sub), gi)))
+            traces.append(ev)
+            meta.append({"case": {"features": list(sub), "eol": "lf", "kinds": ["cli-directory-with-failing-file"], "reserved_option": True}, "info": info, "salt": salt})
+            ck.count(("c15clidir", sub))
     return traces, meta
 
 
